@@ -299,6 +299,35 @@ func c16TieCases() []*pairCase {
 			"router.raw": "*filter\n:x1 -\n:x2 -\n:x3 -\n:x4 -\n-A x1 -j ACCEPT\n-A x2 -j ACCEPT\nCOMMIT\n" +
 				"*nat\n:PREROUTING ACCEPT\nCOMMIT\n*mangle\n:PREROUTING ACCEPT\nCOMMIT\n*raw\n:PREROUTING ACCEPT\nCOMMIT\n"})
 
+	// Ties on the Netspoc side: k content-identical Netspoc groups, used by
+	// k new lines of an ACL that exists on the device, compete for fewer
+	// identical groups on the device.
+	for _, k := range []int{2, 3, 5} {
+		for _, onDev := range []int{1, 2} {
+			if onDev >= k {
+				continue
+			}
+			dev := "interface Ethernet0/1\n nameif inside\n"
+			for i := 0; i < onDev; i++ {
+				dev += asaGroup(fmt.Sprintf("g%d-DRC-0", i), members)
+			}
+			dev += "access-list inside_in extended permit udp object-group g0-DRC-0 any4 eq 53\n" +
+				"access-list inside_in extended deny ip any4 any4\naccess-group inside_in in interface inside\n"
+			spoc, raw := "", ""
+			for i := 1; i <= k; i++ {
+				spoc += asaGroup(fmt.Sprintf("n%d", i), members)
+			}
+			for i := 1; i <= k; i++ {
+				spoc += fmt.Sprintf("access-list inside_in extended permit tcp object-group n%d any4 eq %d\n", i, 80+i)
+			}
+			spoc += "access-list inside_in extended deny ip any4 any4\naccess-group inside_in in interface inside\n"
+			add("ASA", "asa-identical-netspoc-groups-compete-for-device-group", dev, map[string]string{"router": spoc})
+			// One of the competitors comes from the raw file.
+			raw = asaGroup("admins", members) + "access-list inside_in extended permit tcp object-group admins any4 eq 22\n"
+			add("ASA", "asa-identical-netspoc-and-raw-groups-compete", dev, map[string]string{"router": spoc, "router.raw": raw})
+		}
+	}
+
 	// Several input problems of one kind at once: which one is reported
 	// must not change from run to run.
 	{
